@@ -178,6 +178,7 @@ pub fn c09_simple_glyph_total() {
 // @c20
 // @c01
 // @timeout 700
+// @playback-first
 #[cfg_attr(kani, kani::proof)]
 #[cfg_attr(kani, kani::unwind(5))]
 pub fn c09_read_points_fast_total_3_points() {
